@@ -396,6 +396,41 @@ theorem turn_suspended_at_hook (now : Nat) : ∀ (ks : List Nat) (s : CState) (r
       · rw [if_neg hexp] at h ⊢
         exact turn_suspended_at_hook now ks s rest h
 
+/-- an operation is suspended only in a hook call: if a turn leaves the operation in flight, the turn ended with a removal
+    that called the hook (nothing before it in the turn did), and what the operation does after its sweep is unchanged -/
+theorem taskTurn_suspended_at_hook (t : Task) (clock : Nat) (s : CState) (t' : Task)
+    (h : (taskTurn t clock s).2.2 = some t') :
+    (∃ pre k o, (taskTurn t clock s).2.1 = pre ++ [Obs.timeout k o] ∧ o ≠ [] ∧ ∀ x ∈ pre, outsOf x = []) ∧
+    t'.after = t.after := by
+  have hs := turn_suspended_at_hook t.sweep.now t.sweep.keys s
+  unfold taskTurn at h ⊢
+  rcases hsw : sweepTurn t.sweep.now t.sweep.keys s with ⟨s1, obs, r⟩
+  rw [hsw] at h hs
+  cases r with
+  | some rest =>
+    dsimp only at h ⊢
+    cases h
+    exact ⟨hs rest rfl, rfl⟩
+  | none =>
+    cases ha : t.after <;> rw [ha] at h <;> cases h
+
+/-- ... and an operation that is not left in flight is through: a `put` has stored its request with the clock value of
+    this turn as the last thing it did; a `get` (its lookup was made before the sweep) called no hook in this turn -/
+theorem taskTurn_through (t : Task) (clock : Nat) (s : CState) (h : (taskTurn t clock s).2.2 = none) :
+    match t.after with
+    | .store m => ∃ pre, (taskTurn t clock s).2.1 = pre ++ [Obs.stored m.seq clock] ∧ ∀ x ∈ pre, outsOf x = []
+    | .nothing => ∀ x ∈ (taskTurn t clock s).2.1, outsOf x = [] := by
+  have hs := turn_through_no_hook t.sweep.now t.sweep.keys s
+  unfold taskTurn at h ⊢
+  rcases hsw : sweepTurn t.sweep.now t.sweep.keys s with ⟨s1, obs, r⟩
+  rw [hsw] at h hs
+  cases r with
+  | some rest => cases h
+  | none =>
+    cases ha : t.after with
+    | store m => exact ⟨obs, rfl, hs rfl⟩
+    | nothing => exact hs rfl
+
 /-- a sweep resumed at once every time it suspends, until it is through -/
 def sweepAll (now : Nat) : Nat → List Nat → CState → CState × List Obs
   | 0, _, s => (s, [])
